@@ -70,6 +70,10 @@ up)
     ip -n $(ns 1) neigh replace 10.99.0.1 lladdr $m0 dev ${P}s1 nud permanent
     ip -n $(ns 1) route add 10.100.0.1/32 via 10.99.0.1 dev ${P}s1
   fi
+  # a local output filter on the tracer: probes towards $LAB_OUTDROP are refused by the tracer's own kernel (sendto: EPERM)
+  if [ -n "${LAB_OUTDROP:-}" ] && [ "${LAB_OUTDROP}" != "0" ]; then
+    ip netns exec $(ns 0) iptables -A OUTPUT -d ${LAB_OUTDROP} -j DROP
+  fi
   # a rejecting firewall: router $LAB_REJECT refuses to forward UDP and says so (port unreachable, the default of -j REJECT)
   if [ -n "${LAB_REJECT:-}" ] && [ "${LAB_REJECT}" != "0" ]; then
     ip netns exec $(ns $LAB_REJECT) iptables -A FORWARD -p udp -j REJECT
